@@ -51,12 +51,12 @@ dp! {
 	c11q_dp_opt_box: Option<Box<Box<bool>>>, None, 3, true, 5;
 	c11q_dp_siblings_tuple: (Box<Box<u8>>, Box<u8>), None, 3, true, 5; c11q_dp_siblings_arr: [Box<u8>; 3], None, 4, true, 6;
 	c11q_dp_vec_u8_2: Vec<u8>, Some(2), 3, true, 6; c11q_dp_vec_bool_2: Vec<bool>, Some(2), 3, true, 6; c11q_dp_vec_bool_0: Vec<bool>, Some(0), 1, true, 4;
-	c11q_dp_vec_box_2: Vec<Box<u8>>, Some(2), 3, true, 6; c11q_dp_box_vec_bool: Box<Vec<bool>>, None, 3, true, 7; c11q_dp_deque_box: VecDeque<Box<bool>>, Some(2), 3, true, 6;
+	c11q_dp_vec_box_2: Vec<Box<u8>>, Some(2), 3, true, 6; c11q_dp_box_vec_bool: Box<Vec<bool>>, Some(2), 3, true, 7; c11q_dp_deque_box: VecDeque<Box<bool>>, Some(2), 3, true, 6;
 	c11q_dp_list_2: LinkedList<u8>, Some(2), 3, true, 6; c11q_dp_list_box: LinkedList<Box<u8>>, Some(1), 2, true, 6;
+	c11q_dp_empty_vec_then_box: (Vec<bool>, Box<u8>), Some(0), 2, true, 6; c11q_dp_empty_vec_then_vec: (Vec<Option<u8>>, Box<Box<u8>>), Some(0), 2, true, 6;
 	c11q_dp_map_1: BTreeMap<u8, u8>, Some(1), 2, false, 6; c11q_dp_set_1: BTreeSet<u8>, Some(1), 1, false, 6; c11q_dp_string: String, Some(2), 2, false, 8;
 	c11t_dp_vec_opt_box: Vec<Option<Box<bool>>>, Some(2), 5, true, 8; c11t_dp_vec_arr_box: Vec<[Box<u8>; 2]>, Some(1), 3, true, 6; c11t_dp_heap_2: BinaryHeap<u8>, Some(2), 2, false, 8;
 	c11t_dp_box3: Box<Box<Box<bool>>>, None, 2, true, 4; c11t_dp_vec_u32_1: Vec<u32>, Some(1), 5, true, 8; c11t_dp_res: Result<Box<u8>, Box<Box<u8>>>, None, 3, true, 5;
-	c11t_dp_map_box: BTreeMap<u8, Box<u8>>, Some(1), 2, false, 6; c11t_dp_vec_vec_c1: Vec<Vec<bool>>, Some(1), 3, true, 8;
 }
 
 /// decode_all_with_depth_limit additionally rejects a non-empty remainder (also decided in C14)
@@ -79,8 +79,8 @@ pub enum Tree { Leaf(u8), Node(Box<Tree>) }
 impl Spec for Tree {
 	fn spec_enc<const N: usize>(&self, o: &mut Buf<N>) { match self { Tree::Leaf(x) => { o.put(0); o.put(*x); }, Tree::Node(b) => { o.put(1); b.spec_enc(o); } } }
 	fn spec_dec(c: &mut Cur) -> Option<Self> { match c.byte()? { 0 => Some(Tree::Leaf(c.byte()?)), 1 => Some(Tree::Node(Box::new(Tree::spec_dec(c)?))), _ => None } }
-	fn same(&self, o: &Self) -> bool { match (self, o) { (Tree::Leaf(a), Tree::Leaf(b)) => a == b, (Tree::Node(a), Tree::Node(b)) => a.same(b), _ => false } }
-	fn spec_depth(&self) -> u32 { match self { Tree::Leaf(_) => 0, Tree::Node(b) => 1 + b.spec_depth() } }
+	fn same(&self, o: &Self) -> bool { match (self, o) { (Tree::Leaf(a), Tree::Leaf(b)) => a == b, (Tree::Node(a), Tree::Node(b)) => (**a).same(&**b), _ => false } }
+	fn spec_depth(&self) -> u32 { match self { Tree::Leaf(_) => 0, Tree::Node(b) => 1 + (**b).spec_depth() } }
 }
 #[kani::proof]
 #[kani::unwind(9)]
@@ -94,8 +94,8 @@ pub enum List { Nil, Cons(u8, Rc<List>) }
 impl Spec for List {
 	fn spec_enc<const N: usize>(&self, o: &mut Buf<N>) { match self { List::Nil => o.put(0), List::Cons(x, r) => { o.put(1); o.put(*x); r.spec_enc(o); } } }
 	fn spec_dec(c: &mut Cur) -> Option<Self> { match c.byte()? { 0 => Some(List::Nil), 1 => { let x = c.byte()?; Some(List::Cons(x, Rc::new(List::spec_dec(c)?))) }, _ => None } }
-	fn same(&self, o: &Self) -> bool { match (self, o) { (List::Nil, List::Nil) => true, (List::Cons(a, x), List::Cons(b, y)) => a == b && x.same(y), _ => false } }
-	fn spec_depth(&self) -> u32 { match self { List::Nil => 0, List::Cons(_, r) => 1 + r.spec_depth() } }
+	fn same(&self, o: &Self) -> bool { match (self, o) { (List::Nil, List::Nil) => true, (List::Cons(a, x), List::Cons(b, y)) => a == b && (**x).same(&**y), _ => false } }
+	fn spec_depth(&self) -> u32 { match self { List::Nil => 0, List::Cons(_, r) => 1 + (**r).spec_depth() } }
 }
 #[kani::proof]
 #[kani::unwind(10)]
@@ -128,7 +128,8 @@ pub fn c11q_step_any_state() {
 pub fn c11q_decode_from_any_state() {
 	let d: u32 = kani::any();
 	let m: u32 = kani::any();
-	kani::assume(d <= m && m - d <= 4);
+	// state invariant of every real execution: depth <= max + 1 and depth < u32::MAX (2^32 nested levels need > 4 GiB of input)
+	kani::assume(d <= m && m - d <= 4 && m < u32::MAX);
 	let bytes: [u8; 4] = kani::any();
 	let len: usize = kani::any();
 	kani::assume(len <= 4);
@@ -143,6 +144,42 @@ pub fn c11q_decode_from_any_state() {
 	}
 	kani::cover!(r1.is_ok() && d > 100, "reach: ok from a deep state");
 	core::mem::forget((r1, r2));
+}
+
+/// every container kind restores the depth it found, also when it is empty (a leaked level would make wide-but-shallow
+/// values fail under limits that are high enough): decode from an arbitrary (depth, max) state, final depth == start
+fn restores_depth<T: Decode, const L: usize>(c: u32) {
+	let d: u32 = kani::any();
+	let m: u32 = kani::any();
+	kani::assume(d <= m && m < u32::MAX);
+	let bytes: [u8; L] = kani::any();
+	let mut inp = Pre::count32(c, &bytes[..]);
+	let (r, final_depth) = parity_scale_codec::__verif_decode_at_depth::<T, _>(&mut inp, d, m);
+	if r.is_ok() { assert!(final_depth == d, "a successful decode left the nesting depth changed (leaked or over-released a level)"); }
+	kani::cover!(r.is_ok(), "reach: decode ok");
+	core::mem::forget(r);
+}
+#[kani::proof] #[kani::unwind(6)] pub fn c11q_restore_empty_vec() { restores_depth::<Vec<bool>, 1>(0) }
+#[kani::proof] #[kani::unwind(6)] pub fn c11q_restore_vec_2() { restores_depth::<Vec<bool>, 2>(2) }
+#[kani::proof] #[kani::unwind(6)] pub fn c11q_restore_empty_list() { restores_depth::<LinkedList<u8>, 1>(0) }
+#[kani::proof] #[kani::unwind(6)] pub fn c11q_restore_empty_map() { restores_depth::<BTreeMap<u8, u8>, 1>(0) }
+#[kani::proof] #[kani::unwind(6)] pub fn c11q_restore_empty_set() { restores_depth::<BTreeSet<u8>, 1>(0) }
+#[kani::proof] #[kani::unwind(6)] pub fn c11q_restore_empty_deque() { restores_depth::<VecDeque<bool>, 1>(0) }
+#[kani::proof] #[kani::unwind(6)] pub fn c11t_restore_list_1() { restores_depth::<LinkedList<Box<u8>>, 1>(1) }
+#[kani::proof] #[kani::unwind(6)] pub fn c11t_restore_map_1() { restores_depth::<BTreeMap<u8, u8>, 2>(1) }
+#[kani::proof]
+#[kani::unwind(6)]
+pub fn c11q_restore_pointers() {
+	let d: u32 = kani::any();
+	let m: u32 = kani::any();
+	kani::assume(d <= m && m < u32::MAX);
+	let bytes: [u8; 1] = kani::any();
+	let (r, f) = parity_scale_codec::__verif_decode_at_depth::<Box<u8>, _>(&mut &bytes[..], d, m);
+	assert!(r.is_ok() == (d < m) && (r.is_err() || f == d), "Box: descend/ascend not balanced or threshold wrong");
+	let (r, f) = parity_scale_codec::__verif_decode_at_depth::<Rc<u8>, _>(&mut &bytes[..], d, m);
+	assert!(r.is_ok() == (d < m) && (r.is_err() || f == d), "Rc: descend/ascend not balanced or threshold wrong");
+	let (r, f) = parity_scale_codec::__verif_decode_at_depth::<Arc<u8>, _>(&mut &bytes[..], d, m);
+	assert!(r.is_ok() == (d < m) && (r.is_err() || f == d), "Arc: descend/ascend not balanced or threshold wrong");
 }
 
 /// negative twin: "Vec<u8> counts one level" must FAIL (primitive vectors do not descend)
